@@ -63,6 +63,7 @@ class Diag:
         self.gen_line = None
         self.rendered = ""
         self.canary = False
+        self.exit_loc = None
 
     def as_dict(self):
         return {"message": self.message, "kind": self.kind, "function": self.fn_name, "clause": self.clause,
@@ -251,6 +252,14 @@ def run(unit, features=(), repo=REPO, seed=None, rlimit=40, extra_args=(), tag="
                 d.clause = o["clause"]
                 d.props = clause_props.get(d.clause, [])
                 break
+        if d.kind in ("postcondition", "invariant"):
+            for sp in spans:
+                if not sp.get("is_primary") or len(spans) == 1:
+                    gl = sp["line_start"]
+                    o2 = linemap[gl - 1] if 0 < gl <= len(linemap) else None
+                    if o2 and "file" in o2:
+                        d.exit_loc = "%s:%d" % (os.path.relpath(o2["file"], repo), o2["line"])
+                        break
         if d.gen_line:
             for e in registry:
                 if e.get("canary_begin") and e["canary_begin"] <= d.gen_line <= e["canary_end"]:
